@@ -835,6 +835,10 @@ func (e *SpecEnv) call(n *SCall) Val {
 		return Scalar{app(SBool, "fp.isNaN", toFP(s.T)), tBool}
 	case "flt", "fle", "feq":
 		a, b := e.eval(n.Args[0]).(Scalar), e.eval(n.Args[1]).(Scalar)
+		if c.mode != ModeBV {
+			// int mode: floats are an uninterpreted sort; the comparison is the one the code's own ==, <, <= produce
+			return Scalar{c.floatCompare(map[string]token.Token{"flt": token.LSS, "fle": token.LEQ, "feq": token.EQL}[name], a.T, b.T), tBool}
+		}
 		op := map[string]string{"flt": "fp.lt", "fle": "fp.leq", "feq": "fp.eq"}[name]
 		return Scalar{app(SBool, op, toFP(a.T), toFP(b.T)), tBool}
 	case "min", "max":
